@@ -96,6 +96,8 @@ def check(m, run):
     n2 = len(run.obs)
     try:
         _sd.do3(m, run)
+        _sd.sc2(m, run)        # the elevated / reduced polygon the object holds afterwards is the one computed: set_ctrlpts stores what it is given
+        _sd.dc2(m, run)        # the Bezier pieces degree_operations edits in place are new objects, never its input (DC2, shared with C07)
     except AnalysisError as ex:
         run.error(str(ex))
     pr_ok = len(run.obs) > n2 and all(o.ok for o in run.obs[n2:])
